@@ -162,10 +162,16 @@ def numeric_jacobian(func, x, backend, eps=None):
     # Convert to numpy
     if backend.is_backend_array(x):
         x = backend.to_numpy(x)
-    x = np.asarray(x, dtype=float_dtype).flatten()
+    x = np.asarray(x, dtype=float_dtype)
+    # The components are walked through a flat copy, but the function is called with
+    # points of the original shape: a scalar point stays an atom (a 0-d array, as in
+    # numeric_grad) instead of becoming a one-element list, which verbs and adverbs
+    # that tell atoms from lists (a f'b, a f:/b, #x, x@0) treat differently.
+    shape = x.shape
+    x = x.flatten()
 
     # Evaluate function at x to get output shape
-    f0 = func(_to_func_input(x.copy(), backend))
+    f0 = func(_to_func_input(x.copy().reshape(shape), backend))
     if backend.is_backend_array(f0):
         f0 = backend.to_numpy(f0)
     f0 = np.asarray(f0, dtype=float_dtype).flatten()
@@ -180,8 +186,8 @@ def numeric_jacobian(func, x, backend, eps=None):
         x_minus = x.copy()
         x_minus[j] -= eps
 
-        f_plus = func(_to_func_input(x_plus, backend))
-        f_minus = func(_to_func_input(x_minus, backend))
+        f_plus = func(_to_func_input(x_plus.reshape(shape), backend))
+        f_minus = func(_to_func_input(x_minus.reshape(shape), backend))
 
         if backend.is_backend_array(f_plus):
             f_plus = backend.to_numpy(f_plus)
